@@ -30,6 +30,10 @@ type RefResult struct {
 	NodeRuns       map[string]int // per node path
 	FaultTags      []string       // tags of fault-carrying lambdas that the model executed
 	CancelSeen     bool           // a lambda with Fault == cancel executed
+	// Leftover: some produced value has no consumer (a node without successors ran, END was reached
+	// while other nodes were scheduled too, a value was sent to a skipped node, or nodes that do not
+	// lead to END exist) -- outside the domain of the leak property.
+	Leftover bool
 }
 
 func (r *RefResult) absorb(sub *RefResult) {
@@ -44,6 +48,7 @@ func (r *RefResult) absorb(sub *RefResult) {
 	r.GraphNodeRan = true
 	r.FaultTags = append(r.FaultTags, sub.FaultTags...)
 	r.CancelSeen = r.CancelSeen || sub.CancelSeen
+	r.Leftover = r.Leftover || sub.Leftover
 	if sub.MaxNodeRuns > r.MaxNodeRuns {
 		r.MaxNodeRuns = sub.MaxNodeRuns
 	}
@@ -161,11 +166,18 @@ func refPregel(sp *Spec, path string, in any, o RefOpts) *RefResult {
 	lastSel := map[int]string{}
 	inbox := map[string]map[string]any{}
 	deliver := func(from string, v any) {
+		delivered := 0
+		defer func() {
+			if delivered == 0 {
+				res.Leftover = true
+			}
+		}()
 		put := func(to string) {
 			if inbox[to] == nil {
 				inbox[to] = map[string]any{}
 			}
 			inbox[to][from] = v
+			delivered++
 		}
 		for _, e := range sp.Edges {
 			if e.From == from {
@@ -219,6 +231,9 @@ func refPregel(sp *Spec, path string, in any, o RefOpts) *RefResult {
 		}
 		if v, ok := merged[End]; ok {
 			res.Out = v
+			if len(merged) > 1 {
+				res.Leftover = true
+			}
 			return res
 		}
 		if res.CancelSeen && path == "" {
@@ -362,6 +377,11 @@ func refDAG(sp *Spec, path string, in any) *RefResult {
 			}
 		}
 		if !routed {
+			for _, e := range sp.Edges {
+				if e.To == k && !e.NoData && ran[e.From] {
+					res.Leftover = true
+				}
+			}
 			if k != End {
 				res.Skipped = append(res.Skipped, k)
 			}
@@ -443,6 +463,25 @@ func refDAG(sp *Spec, path string, in any) *RefResult {
 		}
 		evalBranches(k)
 	}
+	// a node that ran but whose value is delivered nowhere (only control-only connections leave it)
+	for k := range ran {
+		n := 0
+		for _, e := range sp.Edges {
+			if e.From == k && !e.NoData {
+				n++
+			}
+		}
+		if branchData {
+			for bi, b := range sp.Branches {
+				if b.From == k {
+					n += len(sel[bi])
+				}
+			}
+		}
+		if n == 0 {
+			res.Leftover = true
+		}
+	}
 	// nodes that are not control ancestors of END may or may not have run when the run returns
 	anc := map[string]bool{End: true}
 	for changed := true; changed; {
@@ -466,6 +505,7 @@ func refDAG(sp *Spec, path string, in any) *RefResult {
 		if !anc[k] {
 			res.Optional = append(res.Optional, res.Execs[span[0]:span[1]]...)
 			res.OptionalNodes = append(res.OptionalNodes, path+k)
+			res.Leftover = true
 		}
 	}
 	if len(failedNodes) > 0 {
